@@ -27,7 +27,7 @@ class C18(TreeCheck):
                 prog, meta = programs.g_exitstatus(rng, full=False)
             else:
                 prog, meta = programs.g_fresh(rng)
-            out.append({"program": prog, "config": {}, "meta": meta})
+            out.append({"program": prog, "config": {"driver_as_module": bool(meta.get("as_module"))}, "meta": meta})
         if tier == "thorough":
             for ctx in ("loky", "loky_init_main"):
                 prog, meta = programs.g_exitstatus(rng, full=True)
@@ -60,7 +60,7 @@ class C18(TreeCheck):
             return None
         self._snap = getattr(self, "_snap", 0) + len(ws)
         ncan = sum(len(o["end"]["r"]["canaries"]) for o in F.ops.values() if o["call"] and o["call"]["op"] == "canary" and o["end"] is not None and o["end"]["k"] == "ret")
-        return (m.get("ctx"), m.get("kind"), m.get("init"), tuple(sorted(m.get("overlay", {}))), ncan, m.get("mode"), m.get("fn"), min(len(ws), 6))
+        return (m.get("ctx"), m.get("kind"), m.get("init"), m.get("as_module"), tuple(sorted(m.get("overlay", {}))), ncan, m.get("mode"), m.get("fn"), min(len(ws), 6))
 
     def extra_coverage(self):
         return {"worker_startup_snapshots_compared": getattr(self, "_snap", 0), "exit_statuses_compared": getattr(self, "_statuses", 0)}
